@@ -1,9 +1,9 @@
 package main
 
 import (
-	"io"
 	"crypto/sha256"
 	"fmt"
+	"io"
 	"os"
 	"path/filepath"
 	"regexp"
@@ -127,6 +127,11 @@ func c10(g *Gen) {
 				rg.finOut = "func {\n" // unformattable
 			}
 			t.gens = append(t.gens, rg)
+		}
+		if i%3 == 0 {
+			// a file nobody contributes anything to (like the doc.go of DefaultGen{OptionalName: "doc"}): it still
+			// consists of the header and the package clause, in generation and in verification alike
+			t.gens = append(t.gens, &recGen{name: "gempty", filter: map[int]bool{}, typeErr: -1, namersNil: true, fileType: "golang", fileName: "doc.go", log: &log})
 		}
 		hasText := g.Chance(0.35)
 		if hasText {
